@@ -91,6 +91,10 @@ theorem C08_host_next_hop_ip_spec (ifs : List Iface) (gw : Option Ip) (dst : Ip)
   unfold hostNextHopIp
   rw [firstEnabledIn_isSome]
 
+/-- Gen obligation for the application exchange of the model (`appReq` / `appRep`): the receiver is found under the frame's
+(destination port, protocol), answers go to the request's source. -/
+theorem C08_gen_app_receive : Gen.Forward.appReceiverByPortProtocolReplyToSource = true := by decide
+
 /-! non-vacuity: a host whose cache maps the remote address to a NON-gateway router still uses the gateway -/
 def hhA : Node :=
   { kind := .host, gateway := some 0xC0A80101#32,
